@@ -28,7 +28,8 @@ theorem gen_add_resources : ∀ (ks va : List Int) (db : List (Int × Int)), ks.
   | k :: ks, a :: va, db, h => by
     have ih := gen_add_resources ks va db (by simpa using h)
     simp only [PyFun.add_resources, along, List.zip_cons_cons, List.map_cons, add] at ih ⊢
-    rw [ih]
+    refine congrArg₂ List.cons ?_ ih
+    first | rfl | (simp only [Prod.mk.injEq, true_and]; omega)
   | [], _ :: _, _, h => by simp at h
   | _ :: _, [], _, h => by simp at h
 
@@ -39,7 +40,8 @@ theorem gen_subtract_resources : ∀ (ks va : List Int) (db : List (Int × Int))
   | k :: ks, a :: va, db, h => by
     have ih := gen_subtract_resources ks va db (by simpa using h)
     simp only [PyFun.subtract_resources, along, List.zip_cons_cons, List.map_cons, sub] at ih ⊢
-    rw [ih]
+    refine congrArg₂ List.cons ?_ ih
+    first | rfl | (simp only [Prod.mk.injEq, true_and]; omega)
   | [], _ :: _, _, h => by simp at h
   | _ :: _, [], _, h => by simp at h
 
